@@ -157,6 +157,60 @@ def replay(model, target="oil.b_o_Standing", dtype="f8", n=2, intparams=False, s
     return bool(problems), {"what": f"{target} on {NP_DT[dtype]}[{n}]: " + ("; ".join(problems[:3]) or "array == scalar"), "inputs": m}
 
 
+def replay_gas_second_call(model, method="gas_FVF"):
+    """Real Fluid: a gas method called for one pseudocritical point and then, on the same object and the same pressures, for
+    another: the second result element by element against the scalar correlation for ITS arguments."""
+    import numpy as np
+    import bluebonnet.fluids.gas as gas
+    from bluebonnet.fluids import Fluid
+    m = model_floats(model, ["T", "api", "gg", "rsi", "S", "e0", "e1"], default=dict(T=200.0, api=35.0, gg=0.8, rsi=650.0, S=5.0, e0=1000.0, e1=3000.0))
+    fl = Fluid(m["T"], m["api"], m["gg"], m["rsi"], m["S"])
+    arr = np.array([m["e0"], m["e1"]], dtype=float)
+    first, second = (-72.2, 653.0), (-20.0, 700.0)
+    ref = (lambda p, tp: gas.b_factor_DAK(m["T"], p, *tp)) if method == "gas_FVF" else (lambda p, tp: gas.viscosity_Sutton(m["T"], p, *tp, m["gg"]))
+    getattr(fl, method)(arr, *first)
+    out = np.asarray(getattr(fl, method)(arr, *second), float)
+    problems = []
+    for j in range(2):
+        want = float(ref(float(arr[j]), second))
+        if out.shape != arr.shape or not abs(float(out[j]) - want) <= 1e-9 * abs(want):
+            problems.append(f"element {j} (p={float(arr[j])!r}): {float(out[j]) if out.shape == arr.shape else out!r} vs the scalar correlation at the second pseudocritical point {want!r}")
+    return bool(problems), {"what": f"Fluid.{method} called for pseudocritical point {first}, then for {second} on the same object: " + ("; ".join(problems) or "second call answers for its own arguments"),
+                            "inputs": m}
+
+
+def job_gas_second_call(job):
+    """The gas methods of the facade take the pseudocritical point as arguments: a second call on the same object with another
+    point (and the same pressures) answers for the second point, element by element."""
+    mods = _mods()
+    mod = mods["fluid"]
+    job.encoded(mod, "Fluid.gas_FVF", "Fluid.gas_viscosity")
+    vs, dom = box(None, S=(0, 25), Tpc2=(-200, 100), ppc2=(200, 1500), **OILV)
+    els = [fresh(f"e{j}", pos=True) for j in range(2)]
+    edom = []
+    for e in els:
+        edom += [T.b_le(T.Poly.const(15), P(e)), T.b_le(P(e), T.Poly.const(20000))]
+    for method, ref in (("gas_FVF", lambda q: mods["gas_ufs"]["b_factor_DAK"](vs["T"], q, vs["Tpc2"], vs["ppc2"])),
+                        ("gas_viscosity", lambda q: mods["gas_ufs"]["viscosity_Sutton"](vs["T"], q, vs["Tpc2"], vs["ppc2"], vs["gg"]))):
+        def run():
+            f = mod.Fluid(vs["T"], vs["api"], vs["gg"], vs["rsi"], vs["S"])
+            getattr(f, method)(SymArray([Sym(e.p) for e in els], "f8"), GAS_TPC, GAS_PPC)
+            return getattr(f, method)(SymArray([Sym(e.p) for e in els], "f8"), vs["Tpc2"], vs["ppc2"])
+        rp = (replay_gas_second_call, {"method": method})
+        for k, pr in enumerate(paths(job, run, dom + edom, catch=(Exception,), max_paths=64)):
+            tag = f"Fluid.{method}[second call on the same object with another pseudocritical point]"
+            if pr.exc is not None:
+                job.prove(f"{tag}/raises {type(pr.exc).__name__}[path{k}]", pr.pc, bound="2 pressures", replay=rp, note=repr(pr.exc)[:80])
+                continue
+            out = pr.value
+            if not isinstance(out, SymArray) or out.shape != (2,):
+                job.prove(f"{tag}/one value per pressure[path{k}]", pr.pc, bound="2 pressures", replay=rp)
+                continue
+            job.prove(f"{tag}/element-wise == scalar correlation at the second point[path{k}]",
+                      pr.pc + [T.b_or(*[not_close(out.d[j], ref(els[j]), abs_tol=Fraction(0)) for j in range(2)])], bound="2 pressures", replay=rp)
+    job.prove("Fluid gas methods, second call/reach", dom + edom, expect="sat")
+
+
 # ------------------------------------------------------------------ job
 
 def job_target(job, target, lengths):
@@ -285,4 +339,4 @@ def jobs(tier):
     # elements with an unselected one between or before them), so float64 goes to 3 in the quick tier as well
     lengths = {"f8": (0, 1, 2, 3), "f4": (0, 1, 2), "i8": (0, 1, 2), "i4": (0, 1, 2)} if tier == "quick" else \
         {"f8": (0, 1, 2, 3, 4), "f4": (0, 1, 2, 3), "i8": (0, 1, 2, 3), "i4": (0, 1, 2, 3)}
-    return [(t, (lambda j, t=t: job_target(j, t, lengths))) for t in _targets()]
+    return [(t, (lambda j, t=t: job_target(j, t, lengths))) for t in _targets()] + [("Fluid-gas-methods-second-call", job_gas_second_call)]
